@@ -19,6 +19,7 @@ func init() {
 			"openLog context; LP-OFFLOAD provenance: only selector matchers and leading line filters are offloaded",
 			"PV-ROLE limit plumbing: the limit the engine applies is the one the caller gave",
 			"PF-IDX constant indices into daemon-filled slices are guarded by a length test (a nameless container does not end the query)",
+			"UnparenExpr unwraps every level; SetAttrs visits every attribute",
 		},
 		NotDecided: []string{"the empty key (maps to the empty name; recorded as an assumption)", "collisions of two Docker keys that sanitise to the same name", "that the representatives cover every rune: they cover both sides of every comparison constant in the ASCII range and letters/digits/symbols outside it"},
 		Rules: func(r *Run) {
@@ -39,6 +40,8 @@ func init() {
 			ruleOffloadProvenance(r) // a label filter after a parser stage is not matched against the container labels
 			ruleLimit(r)             // every selected container's records are evaluated: no default limit cuts the merged stream
 			ruleConstIndexGuarded(r, []string{dockerlogPkg}, 2)
+			ruleParens(r)
+			ruleSetAttrsWhole(r)
 		},
 	})
 }
